@@ -101,41 +101,47 @@ class _InMemoryFeedback(Feedback):
       checkpoint_path: Optional[str],
       elapse_secs: float) -> None:
     """Adds a measurement to current trial."""
-    if self._trial.status != 'PENDING':
-      raise RaceConditionError(
-          f'Measurements can only be added to PENDING trials. '
-          f'Encountered: {self._trial}')
-    self._trial.measurements.append(Measurement(
-        step=step,
-        reward=reward,
-        metrics=metrics,
-        checkpoint_path=checkpoint_path,
-        elapse_secs=elapse_secs))
+    with self._study._lock:  # pylint: disable=protected-access
+      if self._trial.status != 'PENDING':
+        raise RaceConditionError(
+            f'Measurements can only be added to PENDING trials. '
+            f'Encountered: {self._trial}')
+      self._trial.measurements.append(Measurement(
+          step=step,
+          reward=reward,
+          metrics=metrics,
+          checkpoint_path=checkpoint_path,
+          elapse_secs=elapse_secs))
 
   def done(self,
            metadata: Optional[Dict[str, Any]] = None,
            related_links: Optional[Dict[str, str]] = None) -> None:
     """Marks current tuning trial as done, and export final object."""
     del related_links
-    if self._trial.status == 'PENDING':
-      if not self._trial.measurements:
-        raise ValueError(
-            f'At least one measurement should be added for trial {self.id}.')
-      self._trial.status = 'COMPLETED'
-      self._trial.final_measurement = self._trial.measurements[-1]
-      self._feedback_fn(self.dna, self._trial)
-      self._trial.metadata.update(metadata or {})
-      self._study._complete_trial(self._trial)  # pylint: disable=protected-access
+    # NOTE: the status test, the status transition, the feedback to the
+    # algorithm and the bookkeeping form one critical section, so that
+    # co-workers racing on the same trial complete it (and feed it back) once.
+    with self._study._lock:  # pylint: disable=protected-access
+      if self._trial.status == 'PENDING':
+        if not self._trial.measurements:
+          raise ValueError(
+              f'At least one measurement should be added for trial {self.id}.')
+        self._trial.status = 'COMPLETED'
+        self._trial.final_measurement = self._trial.measurements[-1]
+        self._feedback_fn(self.dna, self._trial)
+        self._trial.metadata.update(metadata or {})
+        self._study._complete_trial(self._trial)  # pylint: disable=protected-access
 
   def skip(self, reason: Optional[str] = None) -> None:
     """Skips current trial without providing feedback to the controller."""
     del reason
-    if self._trial.status == 'PENDING':
-      self._trial.status = 'COMPLETED'
-      self._trial.infeasible = True
-      self._trial.final_measurement = Measurement(
-          reward=0.0, step=0, elapse_secs=0.0)
-      self._study._complete_trial(self._trial)  # pylint: disable=protected-access
+    with self._study._lock:  # pylint: disable=protected-access
+      if self._trial.status == 'PENDING':
+        self._trial.status = 'COMPLETED'
+        self._trial.infeasible = True
+        self._trial.final_measurement = Measurement(
+            reward=0.0, step=0, elapse_secs=0.0)
+        self._study._complete_trial(self._trial)  # pylint: disable=protected-access
 
   def should_stop_early(self) -> bool:
     """Tells whether current trial should be stopped early.
@@ -179,7 +185,9 @@ class _InMemoryResult(Result):
     self._num_infeasible = 0
     self._best_trial = None
     self._latest_trial_per_group = {}
-    self._lock = threading.Lock()
+    # Reentrant: `done`/`skip`/`next` hold it around `_complete_trial` /
+    # `create_trial`, which acquire it themselves.
+    self._lock = threading.RLock()
 
   def create_trial(
       self, dna_fn: Callable[[], geno.DNA], group_id: str) -> Trial:
@@ -297,12 +305,15 @@ class _InMemoryBackend(backend.Backend):
     """Constructor."""
     super().__init__()
 
-    if name is None or name not in _in_memory_results:
-      study = _InMemoryResult(name, num_examples)
-      if name is not None:
-        _in_memory_results[name] = study
-    else:
-      study = _in_memory_results[name]
+    # NOTE: workers sharing a name (and an algorithm) may be constructed
+    # concurrently: the named study must be looked up / registered once.
+    with _in_memory_results_lock:
+      if name is None or name not in _in_memory_results:
+        study = _InMemoryResult(name, num_examples)
+        if name is not None:
+          _in_memory_results[name] = study
+      else:
+        study = _in_memory_results[name]
 
     if group is None:
       group = str(threading.get_ident())
@@ -314,12 +325,13 @@ class _InMemoryBackend(backend.Backend):
 
     # NOTE(daiyip): algorithm can continue if it's already set up with the same
     # DNASpec, or we will setup the algorithm with input DNASpec.
-    if algorithm.dna_spec is None:
-      algorithm.setup(dna_spec)
-    elif symbolic.ne(algorithm.dna_spec, dna_spec):
-      raise ValueError(
-          f'{algorithm!r} has been set up with a different DNASpec. '
-          f'Existing: {algorithm.dna_spec!r}, New: {dna_spec!r}.')
+    with _in_memory_results_lock:
+      if algorithm.dna_spec is None:
+        algorithm.setup(dna_spec)
+      elif symbolic.ne(algorithm.dna_spec, dna_spec):
+        raise ValueError(
+            f'{algorithm!r} has been set up with a different DNASpec. '
+            f'Existing: {algorithm.dna_spec!r}, New: {dna_spec!r}.')
 
     if early_stopping_policy:
       if early_stopping_policy.dna_spec is None:
@@ -374,9 +386,12 @@ class _InMemoryBackend(backend.Backend):
       raise StopIteration()
 
     # If current session is pending, always return current session.
-    trial = self._study.get_latest_trial(self._group_id)
-    if trial is None or trial.status != 'PENDING':
-      trial = self._study.create_trial(next_dna, self._group_id)
+    # The test and the creation are one critical section, so that co-workers
+    # of a group never end up with two pending trials.
+    with self._study._lock:  # pylint: disable=protected-access
+      trial = self._study.get_latest_trial(self._group_id)
+      if trial is None or trial.status != 'PENDING':
+        trial = self._study.create_trial(next_dna, self._group_id)
     return self._create_feedback(self._study, trial)
 
   @classmethod
@@ -389,3 +404,4 @@ class _InMemoryBackend(backend.Backend):
 
 # Global dictionary for locally sampled in-memory results by name.
 _in_memory_results: Dict[str, _InMemoryResult] = {}
+_in_memory_results_lock = threading.Lock()
